@@ -175,6 +175,44 @@ def fam_contention():
 SCENARIOS["fam_contention"] = fam_contention
 
 
+def cache_policies_str():
+    """All nine eviction policies driven the way CachedStore drives them, with str keys and far more
+    evictions than any bounded internal queue holds (2Q ghosts, SLRU segments, sampled LRU): the victim
+    sequence must not depend on the interpreter's string hashing."""
+    from happysimulator.components.datastore import eviction_policies as E
+    mk = {"lru": lambda: E.LRUEviction(), "lfu": lambda: E.LFUEviction(), "fifo": lambda: E.FIFOEviction(),
+          "random": lambda: E.RandomEviction(seed=3), "slru": lambda: E.SLRUEviction(0.5),
+          "sampled": lambda: E.SampledLRUEviction(sample_size=3, seed=4), "clock": lambda: E.ClockEviction(),
+          "twoq": lambda: E.TwoQueueEviction(0.5), "ttl": lambda: E.TTLEviction(5.0, clock_func=lambda: tick[0])}
+    out = {}
+    tick = [0.0]
+    for name, f in mk.items():
+        rng = random.Random(11)
+        pol, held, victims = f(), set(), []
+        tick[0] = 0.0
+        for _ in range(4000):
+            tick[0] += 0.01
+            k = f"key-{int(rng.paretovariate(0.9)) % 600}"
+            if k in held:
+                pol.on_access(k)
+                continue
+            while len(held) >= 24:
+                v = pol.evict()
+                if v is None:
+                    v = sorted(held)[0]
+                    pol.on_remove(v)
+                held.discard(v)
+                victims.append(v)
+            held.add(k)
+            pol.on_insert(k)
+        import hashlib
+        out[name] = [len(victims), hashlib.sha256("|".join(victims).encode()).hexdigest()[:16]]
+    return out
+
+
+SCENARIOS["cache_policies_str"] = cache_policies_str
+
+
 try:
     from harness.scenarios_ops import SCENARIOS as _S_ops
     SCENARIOS.update(_S_ops)
